@@ -36,7 +36,12 @@ def run_one(job):
         if r["status"] not in ok_status:
             fail = "status " + r["status"]
             res["out"] = r["out"]
-    if os.path.exists(r["log"]) and r["status"] not in ("CRASH", "TIMEOUT"):
+    if not part.get("model"):
+        # oracle-only part (no Lean model consumes this log): the run's own status / post() decide
+        res["drv"] = {"validate_ok": True, "monitor_ok": True, "events": 0}
+        if os.path.exists(r["log"]):
+            res["sig"] = vlib.log_signature(r["log"])
+    elif os.path.exists(r["log"]) and r["status"] not in ("CRASH", "TIMEOUT"):
         v = vlib.drv(part["model"], r["log"])
         res["drv"] = {k: v[k] for k in v if k != "raw"}
         if not v["validate_ok"] and "diverge" not in v:
@@ -54,6 +59,15 @@ def run_one(job):
             fail = (fail + "; " if fail else "") + extra
     res["fail"] = fail
     return res
+
+
+def build_part(part):
+    """a part either names an instrumented harness (harness/<name>.c) or brings its own
+    `build()` (e.g. sanitizer builds with a different stack strategy)"""
+    if callable(part.get("build")):
+        return part["build"]()
+    return vlib.build_harness(part["harness"], runtime=part.get("runtime", False),
+                              extra_defs=part.get("defs", ()), extra_srcs=part.get("extra_srcs", ()))
 
 
 def classify(msg):
@@ -86,13 +100,19 @@ def main():
             print("replay names no runnable case (obligation-only replay): %s" % rp.get("what"))
             return 0
         part = part[0]
-        exe = vlib.build_harness(part["harness"], runtime=part.get("runtime", False),
-                                 extra_defs=part.get("defs", ()), extra_srcs=part.get("extra_srcs", ()))
+        exe = build_part(part)
         res = run_one((part, exe, rp["case"], workdir, 0))
         print(json.dumps({k: res[k] for k in ("status", "fail", "drv")}, indent=1))
         print("\n".join(vlib.tail_lines(res["log"], 30)))
         return 1 if res["fail"] or not res["drv"].get("validate_ok") else 0
 
+    # 0. translator: regenerate Lean data (Gen/*.lean) from /repo's current sources
+    pre_errors = []
+    if spec.get("pre"):
+        try:
+            spec["pre"](vlib.REPO)
+        except Exception as e:  # extraction failed closed = obligation broken
+            pre_errors.append("extraction failed: %s" % str(e)[-1500:])
     # 1. proof obligations
     lean = {"ok": True, "obligations": [], "module": None}
     if not a.no_lean:
@@ -105,8 +125,7 @@ def main():
     build_errors = []
     for part in spec["parts"]:
         try:
-            exe = vlib.build_harness(part["harness"], runtime=part.get("runtime", False),
-                                     extra_defs=part.get("defs", ()), extra_srcs=part.get("extra_srcs", ()))
+            exe = build_part(part)
         except vlib.BuildError as e:
             build_errors.append({"part": part["name"], "error": str(e)[-3000:]})
             continue
@@ -155,7 +174,9 @@ def main():
             continue
         for k, v in s["hist"].items():
             hist[k] = hist.get(k, 0) + v
-        nontrivial = s["interleaved"] or s["casfail"] > 0
+        part_of = {p["name"]: p for p in spec["parts"]}[r["part"]]
+        nt = part_of.get("nontrivial")
+        nontrivial = nt(s) if nt else (s["interleaved"] or s["casfail"] > 0)
         key = (r["part"], " ".join(map(str, r["case"]["args"])), s["sig"])
         if nontrivial:
             sigs[key] = 1
@@ -200,6 +221,8 @@ def main():
         broken.append("proof obligations not discharged: %s %s %s" % (
             ", ".join(bad) if bad else lean.get("module"), "; ".join(lean.get("errors", [])[:5]),
             "; forbidden tokens: " + "; ".join(lean.get("forbidden", [])[:5]) if lean.get("forbidden") else ""))
+    for pe in pre_errors:
+        broken.append(pe)
     for b in build_errors:
         broken.append("instrumented build failed for %s: %s" % (b["part"], b["error"][-600:]))
     if diverges:
@@ -214,8 +237,7 @@ def main():
             rng2 = random.Random(seed * 104729 + 7)
             jobs2 = []
             for part in spec["parts"]:
-                exe = vlib.build_harness(part["harness"], runtime=part.get("runtime", False),
-                                         extra_defs=part.get("defs", ()), extra_srcs=part.get("extra_srcs", ()))
+                exe = build_part(part)
                 for c in part["gen"](rng2, "thorough"):
                     jobs2.append((part, exe, c, workdir, 100000 + len(jobs2)))
             with cf.ThreadPoolExecutor(vlib.NCPU) as ex:
@@ -246,7 +268,7 @@ def main():
             "theorems": [{"name": o["name"], "axioms": o["axioms"], "ok": o["ok"]} for o in obligations],
             "evaluations": len(results),
             "distinct_nontrivial": len(sigs),
-            "rule": "cases = (script, scheduler kind, seed) generated from VERIF_SEED; distinct = different (harness args, sha1 of the (thread,kind,cell) access sequence); non-trivial = a thread switch happened inside an operation or a CAS failed",
+            "rule": spec.get("rule", "cases = (script, scheduler kind, seed) generated from VERIF_SEED; distinct = different (harness args, sha1 of the (thread,kind,cell) access sequence); non-trivial = a thread switch happened inside an operation or a CAS failed"),
             "traces_validated_against_impl": validated,
             "events_validated": events_validated,
             "status_histogram": status_hist,
